@@ -134,7 +134,11 @@ pub fn run(ctx: &Ctx, rep: &mut Report) {
     let n_b = th.len() as u64 * ctx.n(6, 60);
     // C: random sizes
     let n_c = ctx.n(1500, 20_000);
-    for k in ctx.cases(n_small + n_b + n_c) {
+    // D: deterministic grid: all levels x all strategies x the two nastiest classes x sizes
+    // beyond one window (blocks larger than the dictionary lose the stored-block fallback)
+    let grid_sizes = [33_000usize, 40_000, 58_000, 59_000, 100_000, 200_000, 230_000];
+    let n_d = (12 * 5 * 2 * grid_sizes.len()) as u64;
+    for k in ctx.cases(n_small + n_b + n_c + n_d) {
         rep.cur_case = k;
         crate::ctx::begin_case(k);
         let mut rng = ctx.rng("case", k);
@@ -164,6 +168,28 @@ pub fn run(ctx: &Ctx, rep: &mut Report) {
             let strategy = if rng.chance(1, 2) { 0 } else { rng.range(1, 4) as i32 };
             let d = content(&mut rng, class, n);
             one(rep, &d, class, level, strategy);
+        } else if k >= n_small + n_b + n_c {
+            let kk = (k - n_small - n_b - n_c) as usize;
+            let level = (kk % 12) as i32 - 1;
+            let strategy = ((kk / 12) % 5) as i32;
+            let class = [4usize, 1][(kk / 60) % 2];
+            let n = grid_sizes[(kk / 120) % grid_sizes.len()];
+            let d = if class == 1 {
+                // bytes >= 144 with a 258-byte back-reference every 15000 bytes
+                let mut v: Vec<u8> = (0..n).map(|_| 144 + rng.below(112) as u8).collect();
+                let mut i = 15_000;
+                while i + 258 < n {
+                    for j in 0..258 {
+                        v[i + j] = v[i - 9000 + j];
+                    }
+                    i += 15_000;
+                }
+                v
+            } else {
+                content(&mut rng, class, n)
+            };
+            one(rep, &d, class, level, strategy);
+            rep.count("grid_cases");
         } else {
             let n = 300 + rng.size_biased(if ctx.thorough() { 3_000_000 } else { 300_000 });
             let class = rng.below(CLASSES.len());
